@@ -64,7 +64,7 @@ def run_case(ctx, classes, scen):
         if world.obj.err is not None:
             bad(i, step, "conforming board interaction ended in an error", err=world.obj.err)
             return
-        ctx.case(classes + ["op:" + name], (json.dumps(scen["board"], sort_keys=True), name, json.dumps(args), i))
+        ctx.case(classes + ["op:" + name], (json.dumps(scen["board"], sort_keys=True), name, json.dumps(args, default=repr), i))
         ctx.count("monitor:board state compared with the model")
         if name == "var_write_int32":
             v, s = args
@@ -94,7 +94,8 @@ def run_case(ctx, classes, scen):
                 bad(i, step, "nickname read back differs from the trimmed written one", name=world.obj.name,
                     expected=model.nick.strip())
         elif name == "motors_enable":
-            c1, c2 = clamp(args[0]), clamp(args[1])
+            margs = step.get("model_args", args)
+            c1, c2 = clamp(margs[0]), clamp(margs[1])
             model.en1, model.en2 = c1 != 0, c2 != 0
             if c1 != 0:
                 model.mode, model.mode_known = c1, True
@@ -210,6 +211,35 @@ def motors_exhaustive(ctx):
     return n
 
 
+def shape_of(rng, r):
+    """The same request value in another shape int() accepts (clamp(int(x)) is what counts)."""
+    import enum
+    c = rng.randrange(6)
+    if c == 0 and r in (0, 1):
+        return bool(r)
+    if c == 1:
+        return float(r)
+    if c == 2 and 0 <= r <= 5:
+        return enum.IntEnum("Res", {"R%d" % k: k for k in range(6)})(r)
+    if c == 3:
+        return str(r)
+    if c == 4:
+        return type("MyInt", (int,), {})(r)
+    return r
+
+
+def motors_shapes(ctx, rng):
+    steps, plain = [], []
+    for _ in range(rng.randint(1, 4)):
+        r1, r2 = rng.randint(-1, 6), rng.randint(-1, 6)
+        steps.append({"m": "motors_enable", "a": [shape_of(rng, r1), shape_of(rng, r2)], "model_args": [r1, r2]})
+        steps.append({"m": "motors_query_enabled", "a": []})
+    scen = {"board": {"version": "3.0.2", "en1": rng.random() < 0.5, "en2": rng.random() < 0.5, "mode": rng.randint(1, 5)},
+            "setup": "attach", "steps": steps}
+    del plain
+    run_case(ctx, ["motors: resolutions given as bool / float / IntEnum / str / int subclass"], scen)
+
+
 def motors_random(ctx, rng):
     steps = []
     for _ in range(rng.randint(2, 12)):
@@ -243,6 +273,9 @@ def run(ctx):
         nickname(ctx, rng)
     for _ in range(ctx.budget(1500, 20000)):
         motors_random(ctx, rng)
+    for _ in range(ctx.budget(1500, 20000)):
+        motors_shapes(ctx, rng)
+    ctx.need("motors: resolutions given as bool / float / IntEnum / str / int subclass", 1500)
     ctx.need("int32 round trip", 2000)
     ctx.need("int32:negative", 500)
     ctx.need("overlapping writes history", 5000)
